@@ -140,6 +140,10 @@ class Optimizer:
         comment = rules.get("COMMENT")
         whitespace = rules.get("WHITESPACE")
 
+        if "SKIP" in rules:
+            # Never replace a grammar rule that happens to be called SKIP.
+            return
+
         if comment and whitespace:
             # TODO:
             return
